@@ -78,6 +78,16 @@ C10_MonitorAlive ==
        (l <= N /\ Trace[l].ev = "CycleEnd" /\ Trace[l].fan = f /\ cfgf[f].hasRpm /\ looping[f] /\ status[f] = "run")
        => Trace[l].vt - lastPoll[f] <= 3 * cfgf[f].rpmPollMs + 1000]_vars
 
+\* the ladder is climbed to its end: when the time that suffices for all its steps is over (the driver's "budget" stop), a
+\* never-stop fan that is still regulated has been brought to a request at which it turns (above the plant's threshold);
+\* a fan that cannot turn at any allowed value has been reported (direct and rate-limited algorithms: the request settles
+\* within a few cycles after every raise)
+C10_LadderCompletes ==
+  [][(l <= N /\ Trace[l].ev = "Cancel" /\ Trace[l].why = "budget") =>
+       \A f \in DOMAIN req :
+         (cfgf[f].neverStop /\ cfgf[f].hasRpm /\ cfgf[f].stallOnly /\ cfgf[f].algT \in {"direct", "rate"} /\ status[f] = "run" /\ looping[f])
+           => (req[f] # Nil /\ req[f] > cfgf[f].theta)]_vars
+
 Report == l = N + 1 => PrintT(<<"TRACE-DONE", N, "DRIFT", <<>>>>)
 TraceAccepted == TLCGet("stats").diameter = N
 ==============================================================================
